@@ -21,8 +21,39 @@ mod verif_kani {
                  data_alc_header_offset: off, data_payload_offset: off + pid_len, fdt_info: None }
     }
 
+    // @HARNESS id=C06.raptor.fti_rfc5053_layout tier=quick kind=K props=C06 bound="F < 2^40, T > 0, Z > 0, Al in {1,2,4,8}, Al | T, all N" timeout=1200
+    /// EXT_FTI layout as RFC 5053 section 3.2.2 / 3.2.3 prescribes it: Transfer Length F encoded as a 48-bit field, 16 reserved
+    /// bits, Symbol Size T (16), then Z (16), N (8), Al (8): 2 + 10 + 4 = 16 bytes, no padding.  ("The limit of 2^45 on the
+    /// transfer length ... However, the Transfer Length is encoded as a 48-bit field for simplicity.")
+    #[cfg(kani)]
+    #[kani::proof]
+    #[kani::unwind(10)]
+    #[kani::stub(alloc::fmt::format, stub_format)]
+    #[kani::stub(crate::tools::error::FluteError::new, stub_flute_error_new)]
+    fn fti_rfc5053_layout() {
+        h_fti_rfc5053_layout(kani::any(), kani::any(), kani::any(), kani::any(), kani::any());
+    }
+    pub fn h_fti_rfc5053_layout(l: u64, e: u16, z: u16, n: u8, al: u8) {
+        vk_assume!(l < (1u64 << 40));
+        vk_assume!(e > 0 && z > 0 && al > 0);
+        vk_assume!(al == 1 || al == 2 || al == 4 || al == 8);
+        vk_assume!(e % (al as u16) == 0);
+        let oti = Oti { fec_encoding_id: FECEncodingID::Raptor, fec_instance_id: 0, maximum_source_block_length: 1, encoding_symbol_length: e, max_number_of_parity_symbols: 0, scheme_specific: Some(SchemeSpecific::Raptor(RaptorSchemeSpecific { source_blocks_length: z, sub_blocks_length: n, symbol_alignment: al })), inband_fti: true };
+        let mut data = base_header(1);
+        AlcRaptor {}.add_fti(&mut data, &oti, l);
+        let rfc5053_layout = data.len() == 8 + 16
+            && be(&data, 8, 1) == 64 && be(&data, 9, 1) == 4
+            && be(&data, 10, 6) == l as u128      // Transfer Length F, 48-bit field
+            && be(&data, 16, 2) == 0              // reserved
+            && be(&data, 18, 2) == e as u128      // Symbol Size T
+            && be(&data, 20, 2) == z as u128      // Z
+            && be(&data, 22, 1) == n as u128      // N
+            && be(&data, 23, 1) == al as u128;    // Al
+        assert!(rfc5053_layout);
+    }
+
     // @HARNESS id=C06.raptor.fti tier=quick kind=K props=C06,C01 bound="F < 2^40, T > 0, Z > 0, Al in {1,2,4,8}, Al | T, all N" timeout=1200
-    /// EXT_FTI layout per RFC 5053 section 3.2 (FEC Encoding ID 1, Raptor) and add_fti -> get_fti identity
+    /// EXT_FTI as flute lays it out for FEC Encoding ID 1 (the RaptorQ-style 40-bit layout, see the finding on RFC 5053) and add_fti -> get_fti identity
     #[cfg(kani)]
     #[kani::proof]
     #[kani::unwind(10)]
